@@ -25,7 +25,9 @@ use crate::gen::*;
 use crate::refimpl::wire;
 use crate::{vensure, vfail};
 use arbitrary::Unstructured;
-use domain::base::{MessageBuilder, Name, Rtype};
+use domain::base::iana::Class;
+use domain::base::{MessageBuilder, Name, Rtype, Serial, Ttl};
+use domain::rdata::Soa;
 use domain::net::client::request::{RequestMessage, RequestMessageMulti, SendRequest, SendRequestMulti};
 use domain::net::client::{dgram, dgram_stream, load_balancer, multi_stream, redundant, stream};
 use mock::*;
@@ -93,8 +95,14 @@ struct Case {
     /// Dgram/Stream/Multi: one entry. DgStream: [0] datagram leg, [1] stream
     /// leg. Redundant/Lb: one entry per upstream (all datagram).
     ups: Vec<UpScript>,
-    /// AXFR requests (Tr::Xfr only): issue time in ms and script.
+    /// AXFR/IXFR requests (Tr::Xfr only): issue time in ms and script.
     xfr: Vec<(u32, XfrScript)>,
+    /// Per transfer: `true` = issued `xfr[k].0` ms after the previous
+    /// transfer ended (that is what hands a finished transfer's ID to the
+    /// next one), `false` = at the fixed time `xfr[k].0`.
+    xfr_after_prev: Vec<bool>,
+    /// Stream/Xfr: `Config::set_streaming_response_timeout` (ms) if called.
+    st_srt: Option<u32>,
 }
 
 const DELAYS: [u32; 11] = [0, 1, 3, 10, 40, 90, 250, 600, 1100, 2500, 6000];
@@ -106,6 +114,14 @@ const ST_RT: [u32; 5] = [1000, 300, 2000, 5000, 19000];
 const ST_IDLE: [u32; 4] = [10000, 0, 100, 1000];
 const MS_RT: [u32; 4] = [2000, 500, 5000, 30000];
 const ST_BUF: [usize; 4] = [65536, 64, 7, 1];
+/// Separate streaming response timeout (None: only `set_response_timeout`).
+const ST_SRT: [Option<u32>; 8] = [None, None, None, Some(600_000), Some(200), Some(60_000), Some(600_000), Some(5_000)];
+/// Distance in octets between two pauses of a slowly reading stream peer
+/// (a first request with the keepalive option is 46 octets on the wire, a
+/// later one 31) and the length of a pause.
+const STALL_GAP: [u32; 8] = [0, 46, 2, 20, 60, 77, 100, 200];
+const STALL_MS: [u32; 5] = [30, 1, 400, 2500, 10];
+const XFR_FORMS: [XfrForm; 8] = [XfrForm::Axfr, XfrForm::Axfr, XfrForm::IxfrDiff, XfrForm::IxfrFull, XfrForm::IxfrUpToDate, XfrForm::Axfr, XfrForm::IxfrDiff, XfrForm::IxfrFull];
 
 fn dec_emit(u: &mut Unstructured, stream: bool) -> Emit {
     let kind = if stream {
@@ -239,13 +255,52 @@ fn decode(data: &[u8], tr: Tr, thorough: bool) -> Case {
             for _ in 0..nm {
                 let f = byte(&mut u);
                 let (split, gap) = if f & 0x38 == 0x08 { (1 + pick(&mut u, 48) as u16, GAPS[pick(&mut u, GAPS.len())]) } else { (0, 0) };
-                msgs.push(XfrMsg { delay: DELAYS[pick(&mut u, 9)], recs: (f & 3) as u8, with_q: f & 4 == 0, split, gap });
+                msgs.push(XfrMsg { delay: DELAYS[pick(&mut u, 9)], recs: (f & 3) as u8, with_q: f & 4 == 0, split, gap, dup: None });
             }
             let stall = chance(&mut u, 24);
-            xfr.push((at, XfrScript { msgs, stall }));
+            xfr.push((at, XfrScript { msgs, stall, form: XfrForm::Axfr }));
         }
     }
-    let mut c = Case { tr, n, issue, init_id, dg_rt, dg_retries, dg_maxpar, dg_opt, st_rt, st_idle, ms_rt, defer_err, defer_refused, defer_servfail, lb_burst, ups, xfr };
+    let mut c = Case { tr, n, issue, init_id, dg_rt, dg_retries, dg_maxpar, dg_opt, st_rt, st_idle, ms_rt, defer_err, defer_refused, defer_servfail, lb_burst, ups, xfr, xfr_after_prev: vec![], st_srt: None };
+    // Dimensions added by the follow-up rounds are decoded last, and an
+    // exhausted input selects the earlier behaviour, so that replay files
+    // written before keep their meaning.
+    if tr == Tr::Stream || tr == Tr::Xfr {
+        c.st_srt = ST_SRT[pick(&mut u, ST_SRT.len())];
+        let ns = [0usize, 0, 1, 1, 2, 3][pick(&mut u, 6)];
+        let mut off = 0u32;
+        for _ in 0..ns {
+            off += STALL_GAP[pick(&mut u, STALL_GAP.len())];
+            c.ups[0].st_read_stalls.push((off, STALL_MS[pick(&mut u, STALL_MS.len())]));
+        }
+    }
+    if tr == Tr::Xfr {
+        if pick(&mut u, 4) == 3 {
+            // a third transfer
+            let at = ISSUE_T[pick(&mut u, ISSUE_T.len())];
+            let nm = 1 + pick(&mut u, 3);
+            let mut msgs = vec![];
+            for _ in 0..nm {
+                let f = byte(&mut u);
+                msgs.push(XfrMsg { delay: DELAYS[pick(&mut u, 9)], recs: (f & 3) as u8, with_q: f & 4 == 0, split: 0, gap: 0, dup: None });
+            }
+            c.xfr.push((at, XfrScript { msgs, stall: false, form: XfrForm::Axfr }));
+        }
+        for k in 0..c.xfr.len() {
+            let f = byte(&mut u);
+            c.xfr[k].1.form = XFR_FORMS[(f & 7) as usize];
+            c.xfr_after_prev.push(k > 0 && f & 0x30 != 0);
+            if c.xfr[k].1.form == XfrForm::IxfrUpToDate {
+                // one message with one SOA
+                c.xfr[k].1.msgs.truncate(1);
+            }
+            for m in &mut c.xfr[k].1.msgs {
+                if pick(&mut u, 4) == 1 {
+                    m.dup = Some(DUP_D[pick(&mut u, DUP_D.len())]);
+                }
+            }
+        }
+    }
     if matches!(tr, Tr::Redundant | Tr::Lb | Tr::DgStream) {
         // queuing on the datagram semaphore is the subject of the dgram
         // sub-check; here every upstream request starts at once
@@ -286,15 +341,32 @@ fn render(c: &Case) -> String {
     let mut s = format!("{} n={} ", c.tr.name(), c.n);
     match c.tr {
         Tr::Dgram => s.push_str(&format!("rt={}ms retries={} maxpar={} ", c.dg_rt, c.dg_retries, c.dg_maxpar)),
-        Tr::Stream | Tr::Xfr => s.push_str(&format!("rt={}ms idle={}ms buf={} ", c.st_rt, c.st_idle, c.ups[0].st_buf)),
+        Tr::Stream | Tr::Xfr => {
+            s.push_str(&format!("rt={}ms idle={}ms buf={} ", c.st_rt, c.st_idle, c.ups[0].st_buf));
+            if let Some(t) = c.st_srt {
+                s.push_str(&format!("streaming_rt={t}ms "));
+            }
+            if !c.ups[0].st_read_stalls.is_empty() {
+                s.push_str(&format!("peer-read-stalls(octets,ms)={:?} ", c.ups[0].st_read_stalls));
+            }
+        }
         Tr::Multi => s.push_str(&format!("rt={}ms stream_rt={}ms idle={}ms failconn={:?} ", c.ms_rt, c.st_rt, c.st_idle, c.ups[0].st_fail_connect)),
         Tr::DgStream => s.push_str(&format!("udp rt={}ms retries={}; tcp rt={}ms ", c.dg_rt, c.dg_retries, c.ms_rt)),
         Tr::Redundant | Tr::Lb => s.push_str(&format!("upstreams={} rt={}ms retries={} defer={}{}{} burst={:?} ", c.ups.len(), c.dg_rt, c.dg_retries, c.defer_err as u8, c.defer_refused as u8, c.defer_servfail as u8, c.lb_burst)),
     }
     for (k, (at, x)) in c.xfr.iter().enumerate() {
-        s.push_str(&format!("| axfr z{k} At({at}) stall={}: ", x.stall));
+        let when = if c.xfr_after_prev.get(k).copied().unwrap_or(false) { format!("AfterPrevXfr({at})") } else { format!("At({at})") };
+        if x.form == XfrForm::Axfr {
+            s.push_str(&format!("| axfr z{k} {when} stall={}: ", x.stall));
+        } else {
+            s.push_str(&format!("| ixfr({:?}) z{k} {when} stall={}: ", x.form, x.stall));
+        }
         for m in &x.msgs {
-            s.push_str(&format!("[+{}ms recs={} q={} split{}/{}] ", m.delay, m.recs, m.with_q as u8, m.split, m.gap));
+            s.push_str(&format!("[+{}ms recs={} q={} split{}/{}", m.delay, m.recs, m.with_q as u8, m.split, m.gap));
+            if let Some(d) = m.dup {
+                s.push_str(&format!(" +dup{d}"));
+            }
+            s.push_str("] ");
         }
     }
     for (ui, up) in c.ups.iter().enumerate() {
@@ -359,8 +431,17 @@ fn dg_config(c: &Case) -> dgram::Config {
 fn st_config(c: &Case) -> stream::Config {
     let mut cfg = stream::Config::new();
     cfg.set_response_timeout(Duration::from_millis(c.st_rt as u64));
+    if let Some(t) = c.st_srt {
+        cfg.set_streaming_response_timeout(Duration::from_millis(t as u64));
+    }
     cfg.set_idle_timeout(Duration::from_millis(c.st_idle as u64));
     cfg
+}
+
+/// The response timeout (ms) configured for requests with a stream of
+/// responses.
+fn srt_eff(c: &Case) -> u32 {
+    c.st_srt.unwrap_or(c.st_rt)
 }
 
 fn ms_config(c: &Case) -> multi_stream::Config {
@@ -387,7 +468,7 @@ fn peer_span(c: &Case) -> u64 {
         }
     }
     for (_, x) in &c.xfr {
-        m = m.max(x.msgs.iter().map(|m| m.delay as u64 + m.gap as u64).sum());
+        m = m.max(x.msgs.iter().map(|m| m.delay as u64 + m.gap as u64).sum::<u64>() + x.msgs.iter().map(|m| m.dup.unwrap_or(0) as u64).max().unwrap_or(0));
     }
     m
 }
@@ -395,6 +476,13 @@ fn peer_span(c: &Case) -> u64 {
 /// Virtual-time bound (ms) for one request, counted from the moment it is
 /// issued: twice the nominal budget of the transport plus 5 s.
 fn bound_ms(c: &Case) -> u64 {
+    bound_with(c, c.st_rt.max(srt_eff(c)))
+}
+
+/// The same with `st_t` ms as the response timeout of the stream
+/// connection (the connection has two: one for ordinary requests, one for
+/// requests with a stream of responses).
+fn bound_with(c: &Case, st_t: u32) -> u64 {
     let n = (c.n + c.xfr.len()) as u64;
     let dg_per = (c.dg_retries as u64 + 1) * c.dg_rt as u64;
     let span = peer_span(c);
@@ -405,7 +493,8 @@ fn bound_ms(c: &Case) -> u64 {
         // the connection timer restarts whenever a message arrives; every
         // request adds at most its issue delay, the peer's activity span and
         // one response timeout to the time line
-        Tr::Stream | Tr::Xfr => issue_sum + n * (span + c.st_rt as u64),
+        // (a peer that pauses reading delays everything behind the pause)
+        Tr::Stream | Tr::Xfr => issue_sum + c.ups[0].st_read_stalls.iter().map(|s| s.1 as u64).sum::<u64>() + n * (span + st_t as u64),
         Tr::Multi => c.ms_rt as u64,
         Tr::DgStream => dg_per + c.ms_rt as u64,
         // every probe step ends at the latest when that upstream finishes
@@ -477,7 +566,31 @@ enum XfrEnd {
 struct XfrOutcome {
     msgs: Vec<Vec<u8>>,
     end: XfrEnd,
+    /// u64::MAX: never issued.
+    t_issue: u64,
     t_done: u64,
+}
+
+fn build_xfr_request(name: &Labels, k: usize, form: XfrForm) -> RequestMessageMulti<Vec<u8>> {
+    if form == XfrForm::Axfr {
+        return build_axfr_request(name);
+    }
+    let mut wirename = vec![];
+    for l in name {
+        wirename.push(l.len() as u8);
+        wirename.extend_from_slice(l);
+    }
+    wirename.push(0);
+    let name = Name::from_octets(wirename).expect("valid name");
+    let mut qb = MessageBuilder::new_vec().question();
+    qb.push((name.clone(), Rtype::IXFR)).expect("push question");
+    // RFC 1995, section 3: the authority section holds the SOA of the
+    // version the client has
+    let root = Name::<Vec<u8>>::root_vec();
+    let soa = Soa::new(root.clone(), root, Serial(xfr_serial_old(k)), Ttl::from_secs(3600), Ttl::from_secs(600), Ttl::from_secs(86400), Ttl::from_secs(60));
+    let mut ab = qb.authority();
+    ab.push((name, Class::IN, Ttl::from_secs(60), soa)).expect("push soa");
+    RequestMessageMulti::new(ab.into_message()).expect("ixfr request message")
 }
 
 fn build_axfr_request(name: &Labels) -> RequestMessageMulti<Vec<u8>> {
@@ -511,13 +624,25 @@ fn run_world(c: &Case) -> (Vec<Outcome>, Vec<XfrOutcome>, Arc<World>) {
                 let (conn, tr) = stream::Connection::<Req, RequestMessageMulti<Vec<u8>>>::with_config(client, st_config(c));
                 bg.push(tokio::spawn(tr.run()));
                 let bound = Duration::from_millis(bound_ms(c));
-                for (k, (at, _)) in c.xfr.iter().enumerate() {
+                let mut prev_done: Option<tokio::sync::watch::Receiver<bool>> = None;
+                for (k, (at, x)) in c.xfr.iter().enumerate() {
                     let conn = conn.clone();
                     let w = w.clone();
                     let at = *at;
+                    let form = x.form;
+                    let (done_tx, done_rx) = tokio::sync::watch::channel(false);
+                    let prev = if c.xfr_after_prev.get(k).copied().unwrap_or(false) { prev_done.clone() } else { None };
+                    prev_done = Some(done_rx);
                     xfr_handles.push(tokio::spawn(async move {
-                        sleep_until(w.at(at as u64 * 1000)).await;
-                        let mut gr = SendRequestMulti::send_request(&conn, build_axfr_request(&w.xfr_names[k]));
+                        match prev {
+                            Some(mut p) => {
+                                let _ = p.wait_for(|d| *d).await;
+                                sleep(Duration::from_millis(at as u64)).await;
+                            }
+                            None => sleep_until(w.at(at as u64 * 1000)).await,
+                        }
+                        let t_issue = w.now();
+                        let mut gr = SendRequestMulti::send_request(&conn, build_xfr_request(&w.xfr_names[k], k, form));
                         drop(conn);
                         let mut msgs = vec![];
                         let end = loop {
@@ -528,7 +653,9 @@ fn run_world(c: &Case) -> (Vec<Outcome>, Vec<XfrOutcome>, Arc<World>) {
                                 Ok(Err(e)) => break XfrEnd::Err(format!("{e:?}")),
                             }
                         };
-                        XfrOutcome { msgs, end, t_done: w.now() }
+                        drop(gr);
+                        let _ = done_tx.send(true);
+                        XfrOutcome { msgs, end, t_issue, t_done: w.now() }
                     }));
                 }
                 Arc::new(conn)
@@ -578,7 +705,7 @@ fn run_world(c: &Case) -> (Vec<Outcome>, Vec<XfrOutcome>, Arc<World>) {
         for h in xfr_handles {
             match h.await {
                 Ok(o) => xout.push(o),
-                Err(_) => xout.push(XfrOutcome { msgs: vec![], end: XfrEnd::Panic, t_done: 0 }),
+                Err(_) => xout.push(XfrOutcome { msgs: vec![], end: XfrEnd::Panic, t_issue: u64::MAX, t_done: 0 }),
             }
         }
         // all connection handles are gone now: give the transports a chance
@@ -622,6 +749,36 @@ fn acceptable(msg: &[u8], name: &Labels, id: u16, strict: bool) -> Result<(), &'
     }
     if strict && wk.error.is_some() {
         return Err("malformed");
+    }
+    Ok(())
+}
+
+/// Is the message a peer read the request of caller `req` as composed
+/// (ID and EDNS aside)? Decided with the independent walker.
+fn request_intact(c: &Case, w: &World, req: Option<usize>, msg: &[u8]) -> Result<(), &'static str> {
+    let Some(r) = req else { return Err("no caller's question in it") };
+    let Some(wk) = wire::walk(msg) else { return Err("shorter than a header") };
+    let h = &wk.header;
+    if h.qr() || h.opcode() != 0 {
+        return Err("not a query");
+    }
+    let (name, qtype, ns) = if r < c.n {
+        (&w.names[r], QTYPE_A, 0)
+    } else {
+        let form = c.xfr[r - c.n].1.form;
+        (&w.xfr_names[r - c.n], form.qtype(), if form == XfrForm::Axfr { 0 } else { 1 })
+    };
+    if h.counts[0] != 1 || wk.questions.len() != 1 || wk.questions[0].name != *name || wk.questions[0].qtype != qtype || wk.questions[0].qclass != CLASS_IN {
+        return Err("question differs");
+    }
+    if h.counts[1] != 0 || h.counts[2] != ns || h.counts[3] > 1 {
+        return Err("record counts differ");
+    }
+    if wk.error.is_some() || wk.records.len() != (h.counts[2] + h.counts[3]) as usize {
+        return Err("records malformed");
+    }
+    if wk.end != msg.len() {
+        return Err("trailing octets");
     }
     Ok(())
 }
@@ -686,15 +843,23 @@ fn dgram_predict(s: &ReqScript, rt_ms: u32, retries: u8) -> Pred {
 /// response timer is restarted by every arriving message and is never older
 /// than the last arrival (or the first request), so it cannot have fired
 /// before `a + T`.
-fn stream_claim(ev: &[Ev], names: &[Labels], up: usize, i: usize, t_stream_ms: u64, deadline_us: Option<u64>) -> Option<u32> {
+///
+/// With a peer that pauses reading, the transport holds a request (and has
+/// given it an ID) earlier than the peer's log shows its arrival, but not
+/// before the caller issued it (`t_issue_us`); `timer_start_us` is a lower
+/// bound for the start of the connection's response timer when nothing has
+/// arrived yet (None: the moment the peer saw the first request of the
+/// connection).
+#[allow(clippy::too_many_arguments)]
+fn stream_claim(ev: &[Ev], names: &[Labels], up: usize, i: usize, t_stream_ms: u64, deadline_us: Option<u64>, t_issue_us: u64, timer_start_us: Option<u64>) -> Option<u32> {
     const M: u64 = 3000;
     let conns: BTreeSet<usize> = ev.iter().filter(|e| e.up == up && e.leg == Leg::St).map(|e| e.conn).collect();
     for c in conns {
         let evs: Vec<&Ev> = ev.iter().filter(|e| e.up == up && e.leg == Leg::St && e.conn == c).collect();
         let Some(p) = evs.iter().position(|e| matches!(&e.what, What::Recv { req: Some(r), .. } if *r == i)) else { continue };
         let What::Recv { id: x, .. } = &evs[p].what else { unreachable!() };
-        let first_recv_t = evs.iter().find(|e| matches!(e.what, What::Recv { .. })).map(|e| e.t).unwrap_or(0);
-        let t_recv = evs[p].t;
+        let first_recv_t = timer_start_us.unwrap_or_else(|| evs.iter().find(|e| matches!(e.what, What::Recv { .. })).map(|e| e.t).unwrap_or(0));
+        let t_recv = evs[p].t.min(t_issue_us);
         let mut last_arr: Option<u64> = None;
         let mut dead = false;
         for e in &evs[..p] {
@@ -831,7 +996,33 @@ fn classes(c: &Case, ctx: &mut Ctx) -> bool {
             }
         }
     }
-    for (_, x) in &c.xfr {
+    if matches!(c.tr, Tr::Stream | Tr::Xfr) {
+        if let Some(s) = c.st_srt {
+            ctx.class(format!("{t}:separate-streaming-timeout-{}", if s > c.st_rt { "longer" } else { "shorter" }));
+        }
+        if !c.ups[0].st_read_stalls.is_empty() {
+            ctx.class(format!("{t}:peer-read-stall"));
+            if c.ups[0].st_buf < 31 && c.n + c.xfr.len() >= 2 {
+                ctx.class(format!("{t}:peer-read-stall-pipe-smaller-than-request"));
+            }
+        }
+    }
+    for (k, (_, x)) in c.xfr.iter().enumerate() {
+        ctx.class(format!(
+            "{t}:{}",
+            match x.form {
+                XfrForm::Axfr => "axfr",
+                XfrForm::IxfrFull => "ixfr-full-zone",
+                XfrForm::IxfrUpToDate => "ixfr-up-to-date",
+                XfrForm::IxfrDiff => "ixfr-diff",
+            }
+        ));
+        if c.xfr_after_prev.get(k).copied().unwrap_or(false) {
+            ctx.class(format!("{t}:transfer-issued-after-previous-transfer"));
+        }
+        if x.msgs.iter().any(|m| m.dup.is_some()) {
+            ctx.class(format!("{t}:transfer-message-duplicated"));
+        }
         ctx.class(format!("{t}:axfr-{}-messages", x.msgs.len().min(4)));
         if x.stall {
             ctx.class(format!("{t}:axfr-stalls"));
@@ -878,14 +1069,36 @@ fn check(c: &Case, ctx: &mut Ctx) -> CaseResult {
     }
     vensure!(out.iter().all(|o| !o.panicked), format!("{t}:request-task-panicked"), "a request task panicked in {}", render(c));
 
+    // 0b. what a peer reads is what the callers composed: every datagram /
+    // every frame of the octet stream is one caller's request
+    for e in ev.iter() {
+        let What::Recv { req, bytes, .. } = &e.what else { continue };
+        if let Err(why) = request_intact(c, &w, *req, bytes) {
+            let n = bytes.len().min(80);
+            vfail!(format!("{t}:request-garbled-on-wire"), "the peer (upstream {}, {:?} #{}) read a message that is not a request of any caller ({why}): {:02x?}{}; case: {}", e.up, e.leg, e.conn, &bytes[..n], if n < bytes.len() { ".." } else { "" }, render(c));
+        }
+    }
+
     // 1. every request completes within the bound
+    // The stream connection has one response timeout for ordinary requests
+    // and one for requests with a stream of responses; the one in effect is
+    // that of the request the transport accepted last (documented: "response
+    // timeout currently in effect"). Requests reach the transport in the
+    // order they are issued, so an ordinary request issued after every
+    // transfer request runs under the ordinary timeout from the moment it is
+    // accepted; in every other situation either timeout can apply.
+    let ordinary_timeout_governs = |o: &Outcome| xout.iter().all(|x| x.t_issue < o.t_issue);
+    let streaming_timeout_governs = |x: &XfrOutcome| out.iter().all(|o| o.res.is_some() && !o.panicked && o.t_issue < x.t_issue);
+    let st_lo = c.st_rt.min(srt_eff(c));
     for (i, o) in out.iter().enumerate() {
+        let lim = if matches!(c.tr, Tr::Stream | Tr::Xfr) && ordinary_timeout_governs(o) { bound_with(c, c.st_rt) } else { bound_ms(c) };
         vensure!(
-            o.res.is_some(),
+            o.res.is_some() && o.t_done.saturating_sub(o.t_issue) <= lim * 1000,
             format!("{t}:no-completion-within-budget"),
-            "request {i} (issued at {} us) did not resolve within {} ms of virtual time; case: {}",
+            "request {i} (issued at {} us) did not resolve within {} ms of virtual time (resolved: {:?} us); case: {}",
             o.t_issue,
-            bound_ms(c),
+            lim,
+            o.res.as_ref().map(|_| o.t_done),
             render(c)
         );
     }
@@ -930,7 +1143,9 @@ fn check(c: &Case, ctx: &mut Ctx) -> CaseResult {
         // the transport may have given the request an ID the peer never
         // saw, and a reply already in flight can legitimately carry it. The
         // ID is then not observable; the question is still checked.
-        let id_observable = |e: &Ev| e.leg == Leg::Dg || !ev.iter().any(|x| x.up == e.up && x.leg == Leg::St && x.conn == e.conn && matches!(x.what, What::Poison(_)));
+        // The same holds for a peer that pauses reading: the transport has
+        // numbered a request the peer has not read yet.
+        let id_observable = |e: &Ev| e.leg == Leg::Dg || !(ev.iter().any(|x| x.up == e.up && x.leg == Leg::St && x.conn == e.conn && matches!(x.what, What::Poison(_))) || !c.ups[e.up].st_read_stalls.is_empty());
         let explaining: Vec<&Ev> = same.iter().copied().filter(|e| !id_observable(e) || ids_on(e).contains(&h.id)).collect();
         // (a stream reply can by chance be byte-identical to a datagram
         // reply: prefer the stream one, it is the one dgram_stream may return)
@@ -976,7 +1191,21 @@ fn check(c: &Case, ctx: &mut Ctx) -> CaseResult {
         Tr::Stream | Tr::Multi | Tr::Xfr => {
             for (i, o) in out.iter().enumerate() {
                 let deadline = if c.tr == Tr::Multi { Some(o.t_issue + c.ms_rt as u64 * 1000) } else { None };
-                if let Some(eid) = stream_claim(ev, names, 0, i, c.st_rt as u64, deadline) {
+                // (only a peer that pauses reading separates the moment the
+                // transport accepts a request from the moment the peer sees it)
+                let slow_reader = !c.ups[0].st_read_stalls.is_empty();
+                let (t_resp, t_issue, timer_start) = if c.tr == Tr::Multi {
+                    (c.st_rt, u64::MAX, None)
+                } else {
+                    let first_issue = out.iter().map(|o| o.t_issue).chain(xout.iter().map(|x| x.t_issue)).min().unwrap_or(0);
+                    let t_resp = if ordinary_timeout_governs(o) { c.st_rt } else { st_lo };
+                    if slow_reader {
+                        (t_resp, o.t_issue, Some(first_issue))
+                    } else {
+                        (t_resp, u64::MAX, None)
+                    }
+                };
+                if let Some(eid) = stream_claim(ev, names, 0, i, t_resp as u64, deadline, t_issue, timer_start) {
                     dynclass(ctx, c.tr, format!("{t}:claim-must-ok"));
                     if !matches!(o.res, Some(Ok(_))) {
                         return fail_not_delivered(i, &format!("emission {eid} is the first reply with the request's ID on a live connection, acceptable and in time"), o);
@@ -1008,7 +1237,7 @@ fn check(c: &Case, ctx: &mut Ctx) -> CaseResult {
                         vensure!(seen, "dgram_stream:truncated-reply-not-retried-over-stream", "request {i}: truncated datagram reply at {} us but the stream peer never saw the request; case: {}", tc_ev.t, render(c));
                     }
                     let deadline = tc_ev.t + c.ms_rt as u64 * 1000;
-                    if let Some(eid) = stream_claim(ev, names, 1, i, c.st_rt as u64, Some(deadline)) {
+                    if let Some(eid) = stream_claim(ev, names, 1, i, c.st_rt as u64, Some(deadline), u64::MAX, None) {
                         dynclass(ctx, c.tr, "dgram_stream:claim-must-ok-tcp".into());
                         if !matches!(o.res, Some(Ok(_))) {
                             return fail_not_delivered(i, &format!("after the truncated datagram reply, stream emission {eid} is acceptable and in time"), o);
@@ -1054,6 +1283,7 @@ fn check(c: &Case, ctx: &mut Ctx) -> CaseResult {
             _ => None,
         });
         let mut j = 0usize;
+        let mut foreign_mid_transfer = false;
         for (m_idx, m) in xo.msgs.iter().enumerate() {
             if emitted.get(j).map(|e| matches!(&e.what, What::Emit { bytes, .. } if bytes == m)).unwrap_or(false) {
                 j += 1;
@@ -1062,8 +1292,11 @@ fn check(c: &Case, ctx: &mut Ctx) -> CaseResult {
             // "a header-only error reply needs only the ID": such a reply
             // (whatever made the peer send it) legitimately ends the transfer
             let emitted_at_all = ev.iter().any(|e| matches!(&e.what, What::Emit { bytes, .. } if bytes == m));
-            if let (Some(x), Some(h)) = (xid, wire::header(m)) {
-                if emitted_at_all && m.len() == 12 && h.qr() && h.rcode() != 0 && h.id == x && m_idx + 1 == xo.msgs.len() {
+            // (a peer that pauses reading may never get to read the request:
+            // the ID the transport gave it is then not observable)
+            let id_unobservable = xid.is_none() && !c.ups[0].st_read_stalls.is_empty();
+            if let Some(h) = wire::header(m) {
+                if emitted_at_all && m.len() == 12 && h.qr() && h.rcode() != 0 && (xid == Some(h.id) || id_unobservable) && m_idx + 1 == xo.msgs.len() {
                     ctx.class("stream_xfr:ended-by-header-only-error-with-own-id");
                     continue;
                 }
@@ -1072,14 +1305,44 @@ fn check(c: &Case, ctx: &mut Ctx) -> CaseResult {
                 What::Emit { bytes, for_req, kind, .. } if bytes == m => Some(format!("emitted for request {for_req} as {kind:?}")),
                 _ => None,
             });
+            if let (Some(x), Some(h)) = (xid, wire::header(m)) {
+                // (only a message the peer sent for another request is
+                // excused; an own message out of order is not)
+                let foreign = ev.iter().any(|e| matches!(&e.what, What::Emit { bytes, for_req, .. } if bytes == m && *for_req != r));
+                if emitted_at_all && foreign && h.qr() && h.id == x && h.counts[0] == 0 && h.rcode() == 0 {
+                    if m_idx > 0 {
+                        // A later message of a transfer may leave the question
+                        // out (RFC 5936, 2.2.2); nothing but the ID ties it to
+                        // the request, so a question-less message of another
+                        // transfer that meets this ID cannot be told apart by
+                        // any client. What follows it is no longer defined.
+                        ctx.class("stream_xfr:ambiguous-question-less-foreign-message-mid-transfer");
+                        foreign_mid_transfer = true;
+                        break;
+                    }
+                    // The first response has to repeat the question (RFC
+                    // 5936, 2.2.2; RFC 1995 has no exception): a message
+                    // without one is not an answer to this request.
+                    vfail!("stream_xfr:question-less-first-message-in-response-stream", "transfer request {k}: the first message handed to the caller has no question section and is not message #0 of the peer's response stream ({}); case: {}", whose.unwrap_or_else(|| "never emitted".into()), render(c));
+                }
+            }
             vfail!("stream_xfr:foreign-or-out-of-order-message-in-response-stream", "axfr request {k}: message #{m_idx} handed to the caller is not message #{j} of the peer's response stream ({}); case: {}", whose.unwrap_or_else(|| "never emitted".into()), render(c));
         }
         // completeness on a clean connection
         let script = &c.xfr[k].1;
         let Some(p) = ev.iter().position(|e| matches!(&e.what, What::Recv { req: Some(q), .. } if *q == r)) else { continue };
         let What::Recv { id: x, .. } = &ev[p].what else { unreachable!() };
-        let mut clean = !script.stall && emitted.len() == script.msgs.len();
-        let first_recv_t = ev.iter().find(|e| matches!(e.what, What::Recv { .. })).map(|e| e.t).unwrap_or(0);
+        let mut clean = !script.stall && emitted.len() == script.msgs.len() && script.msgs.iter().all(|m| m.dup.is_none()) && !foreign_mid_transfer;
+        let slow_reader = !c.ups[0].st_read_stalls.is_empty();
+        let first_recv_t = if slow_reader {
+            out.iter().map(|o| o.t_issue).chain(xout.iter().map(|x| x.t_issue)).min().unwrap_or(0)
+        } else {
+            ev.iter().find(|e| matches!(e.what, What::Recv { .. })).map(|e| e.t).unwrap_or(0)
+        };
+        // the transport holds the request from some moment between its issue
+        // and its arrival at the peer
+        let t_held = if slow_reader { xo.t_issue.min(ev[p].t) } else { ev[p].t };
+        let t_resp = if streaming_timeout_governs(xo) { srt_eff(c) } else { st_lo };
         let mut last_arr: Option<u64> = None;
         let mut seen = 0usize;
         for (pos, e) in ev.iter().enumerate() {
@@ -1096,13 +1359,13 @@ fn check(c: &Case, ctx: &mut Ctx) -> CaseResult {
                     let mine = *for_req == r && matches!(kind, Kind::Xfr(..));
                     if bytes.len() < 12 {
                         clean = false;
-                    } else if !mine && wire::header(bytes).map(|h| h.id) == Some(*x) && (pos > p || d + 1000 >= ev[p].t) {
+                    } else if !mine && wire::header(bytes).map(|h| h.id) == Some(*x) && (pos > p || d + 1000 >= t_held) {
                         // something else carries the transfer's ID
                         clean = false;
                     }
                     if mine {
                         let a = last_arr.unwrap_or(first_recv_t);
-                        if d + 3000 >= a + c.st_rt as u64 * 1000 {
+                        if d + 3000 >= a + t_resp as u64 * 1000 {
                             clean = false;
                         }
                         seen += 1;
@@ -1116,6 +1379,9 @@ fn check(c: &Case, ctx: &mut Ctx) -> CaseResult {
             ctx.class("stream_xfr:claim-complete-stream");
             if script.msgs.len() > 1 {
                 ctx.class("stream_xfr:claim-complete-stream-multi-message");
+            }
+            if script.form != XfrForm::Axfr {
+                ctx.class("stream_xfr:claim-complete-stream-ixfr");
             }
             vensure!(
                 xo.end == XfrEnd::Eof && xo.msgs.len() == emitted.len(),
@@ -1147,7 +1413,27 @@ fn check(c: &Case, ctx: &mut Ctx) -> CaseResult {
             None => {}
         }
     }
-    if c.tr == Tr::Stream {
+    if c.tr == Tr::Xfr && srt_eff(c) > c.st_rt {
+        for o in &out {
+            if ordinary_timeout_governs(o) && !xout.is_empty() && matches!(&o.res, Some(Err(e)) if e.contains("ReadTimeout")) {
+                ctx.class("stream_xfr:ordinary-request-after-transfer-times-out-under-longer-streaming-timeout");
+            }
+        }
+    }
+    if matches!(c.tr, Tr::Stream | Tr::Xfr) && c.ups[0].st_buf < 31 {
+        // a reply arrives while a request that was issued before is not yet
+        // (completely) read by the peer: with a pipe smaller than a request
+        // the transport is in the middle of writing
+        let arrivals: Vec<u64> = ev.iter().filter_map(|e| match &e.what {
+            What::Emit { bytes, done: Some(d), .. } if bytes.len() >= 12 => Some(*d),
+            _ => None,
+        }).collect();
+        let issued = |r: usize| if r < c.n { out[r].t_issue } else { xout[r - c.n].t_issue };
+        if ev.iter().any(|e| matches!(&e.what, What::Recv { req: Some(r), .. } if arrivals.iter().any(|d| issued(*r) < *d && *d < e.t))) {
+            ctx.class(format!("{t}:reply-arrives-while-request-write-stalled"));
+        }
+    }
+    if matches!(c.tr, Tr::Stream | Tr::Xfr) {
         // slot reuse: the same ID received twice for different requests, and
         // a reply for the first holder emitted after the second arrived
         let mut seen: BTreeMap<u16, (usize, usize)> = BTreeMap::new();
@@ -1158,7 +1444,10 @@ fn check(c: &Case, ctx: &mut Ctx) -> CaseResult {
                     if let Some((r0, _)) = seen.get(id) {
                         if r0 != r {
                             reused.insert(*id, (*r0, k));
-                            ctx.class("stream:id-recycled");
+                            ctx.class(format!("{t}:id-recycled"));
+                            if *r0 >= c.n && *r >= c.n {
+                                ctx.class("stream_xfr:transfer-id-recycled-by-transfer");
+                            }
                         }
                     }
                     seen.insert(*id, (*r, k));
@@ -1167,7 +1456,11 @@ fn check(c: &Case, ctx: &mut Ctx) -> CaseResult {
                     let hid = wire::header(bytes).unwrap().id;
                     if let Some((r0, _)) = reused.get(&hid) {
                         if r0 == for_req {
-                            ctx.class("stream:late-reply-meets-recycled-id");
+                            ctx.class(format!("{t}:late-reply-meets-recycled-id"));
+                            let holder = seen.get(&hid).map(|s| s.0).unwrap_or(0);
+                            if holder >= c.n && wire::header(bytes).map(|h| h.counts[0] == 0 && h.rcode() == 0).unwrap_or(false) {
+                                ctx.class("stream_xfr:late-question-less-message-meets-transfer-with-recycled-id");
+                            }
                         }
                     }
                 }
@@ -1268,6 +1561,22 @@ fn health(cl: &BTreeMap<String, u64>, _thorough: bool) -> Result<(), String> {
         ("dgram_stream:claim-must-ok-udp", 100),
         ("stream_xfr:claim-complete-stream-multi-message", 100),
         ("stream_xfr:axfr-with-ordinary-requests", 100),
+        // follow-up dimensions: slowly reading peer, separate streaming
+        // timeout, IXFR, duplicated transfer messages, transfers in a row
+        ("stream:peer-read-stall", 2000),
+        ("stream:reply-arrives-while-request-write-stalled", 100),
+        ("stream_xfr:reply-arrives-while-request-write-stalled", 50),
+        ("stream:separate-streaming-timeout-longer", 1000),
+        ("stream_xfr:separate-streaming-timeout-longer", 1000),
+        ("stream_xfr:separate-streaming-timeout-shorter", 300),
+        ("stream_xfr:ordinary-request-after-transfer-times-out-under-longer-streaming-timeout", 30),
+        ("stream_xfr:ixfr-diff", 500),
+        ("stream_xfr:ixfr-full-zone", 500),
+        ("stream_xfr:ixfr-up-to-date", 300),
+        ("stream_xfr:claim-complete-stream-ixfr", 300),
+        ("stream_xfr:transfer-message-duplicated", 1000),
+        ("stream_xfr:transfer-id-recycled-by-transfer", 200),
+        ("stream_xfr:late-question-less-message-meets-transfer-with-recycled-id", 5),
         ("redundant:claim-must-ok", 50),
         ("load_balancer:claim-must-ok", 50),
     ];
@@ -1283,7 +1592,7 @@ fn health(cl: &BTreeMap<String, u64>, _thorough: bool) -> Result<(), String> {
 pub fn prop() -> Option<Prop> {
     Some(Prop {
         id: "C15",
-        rule: "a case = one client transport over scripted in-process peers, N requests with distinct question names, a fault script per request and upstream (reply kinds, delays, duplicates, frame splits, closes, connect failures) and a transport configuration, all decoded from the generated bytes; non-trivial = at least 2 requests on the transport and the script contains at least one of {replies in reverse order, duplicate, wrong ID, right ID with another request's question, cross-delivered datagram, close / bad length prefix}; distinct by the hash of the decoded case",
+        rule: "a case = one client transport over scripted in-process peers, N requests with distinct question names, a fault script per request and upstream (reply kinds, delays, duplicates, frame splits, closes, connect failures) and a transport configuration, all decoded from the generated bytes; non-trivial = at least 2 requests on the transport and the script contains at least one of {replies in reverse order, duplicate, wrong ID, right ID with another request's question, cross-delivered datagram, close / bad length prefix}; distinct by the hash of the decoded case. stream and stream_xfr additionally draw a separate streaming response timeout (set_streaming_response_timeout shorter or longer than the response timeout) and a peer that pauses reading at generated offsets of the octet stream (back-pressure: partial writes); stream_xfr issues 1..3 AXFR or IXFR requests (answers: full zone, single SOA, difference sequence; messages optionally duplicated) at fixed times or one after the other, so that a finished transfer's ID goes to the next one",
         assumptions: &[
             "tokio current-thread runtime with a paused clock: schedules are those of the deterministic executor times the generated delays; real sockets, kernel behaviour and multi-threaded executors are not covered",
             "hook C15-hook-stream-virtual-clock (cfg domain_verif): stream.rs measures its timers with tokio::time::Instant so that they follow the paused clock",
@@ -1291,6 +1600,9 @@ pub fn prop() -> Option<Prop> {
             "completeness is claimed only where the peers' log (streams) or the script (datagrams) shows an acceptable reply arriving more than 3 ms before the relevant timeout with no close, receive error or earlier reply carrying the same ID but failing is_answer (documented: WrongReplyForQuery) before it",
             "library-internal randomness (message IDs, multi_stream retry back-off, redundant/load_balancer probing) is not controlled; oracles do not depend on it",
             "the load balancer's locally generated SERVFAIL (all upstreams over their burst limit) is accepted as an answer when it carries the request's ID and question",
+            "stream connection with two response timeouts (documented: the one in effect is that of the request accepted last): an ordinary request issued after every transfer request must finish within the budget computed from the ordinary response timeout, a transfer issued after every ordinary request gets completeness claims under the streaming timeout; in all other interleavings the budget uses the larger and the completeness claims the smaller of the two",
+            "every datagram / stream frame a peer reads must be one caller's request as composed (question, section counts, no trailing octets; ID and EDNS aside)",
+            "a question-less NOERROR message of another transfer that meets the ID of a running transfer after its first message cannot be told apart by any client (RFC 5936 2.2.2 allows later messages without question): not a violation, the transfer is not checked further; as first message it is a violation",
         ],
         subchecks: vec![
             SubCheck::new("dgram", run_dgram, 60_000, 600_000, 700),
